@@ -1,6 +1,430 @@
 package main
 
-// runE2E: histories served by a fake MySQL master over TCP to the real driver and Streamer.Stream().
-func runE2E(c *Ctx, prop string) {
-	e2eRun(c, prop)
+import (
+	"context"
+	"errors"
+	"fmt"
+	"runtime"
+	"strings"
+	"sync"
+	"sync/atomic"
+	"time"
+
+	gobinlog "github.com/Breeze0806/gobinlog"
+	"verif/harness/internal/vh"
+)
+
+// One end-to-end attempt: the real Streamer.Stream() and the real driver against the fake master.
+
+type e2eAttempt struct {
+	events   [][]byte // packets the master sends after the dump request
+	terminal string   // eof err close reset hang short outofseq
+	errCode  uint16
+	errMsg   string
+	verdicts []bool
+	// cancellation
+	cancelInHandler int  // >=0: the handler of that call cancels the context before returning
+	cancelWhenIdle  bool // cancel once the master has sent everything and hangs
+	// pacing: the master waits for the k-th handler call to start before sending the rest (reader "waiting for the network")
+	holdAfter int // >=0: number of packets sent before waiting for gate
+	slowHandler time.Duration
+	scribble  bool
+}
+
+type e2eResult struct {
+	returned    bool
+	streamErr   error
+	outcome     string
+	calls       []vh.Val
+	snapshots   []string // deep copies taken inside the handler
+	txs         []*gobinlog.Transaction
+	stored      gobinlog.Position
+	errorRes    string // nil | blocked | master:<msg> | transport:<text>
+	errorResAfterCancel string
+	leaked      bool
+	closedSeen  bool
+	quitSeen    bool
+	dumps       []dumpReq
+	queries     []string
+	order       []string
+	overlap     bool // two handler calls at once
+	afterReturn bool // a handler call after Stream returned
+	elapsed     time.Duration
+}
+
+const leakFrame = "startDumpFromBinlogPosition.func1"
+
+func libraryGoroutines() int {
+	buf := make([]byte, 1<<20)
+	n := runtime.Stack(buf, true)
+	return strings.Count(string(buf[:n]), leakFrame)
+}
+
+func classifyErr(err error) string {
+	if err == nil {
+		return "nil"
+	}
+	var ge *gobinlog.Error
+	s := err.Error()
+	if errors.As(err, &ge) && ge.Original() != nil {
+		o := ge.Original().Error()
+		if strings.Contains(o, "Error 1236") || strings.Contains(s, "fetch error packet") {
+			return "master:" + o
+		}
+		return "transport:" + o
+	}
+	return "transport:" + s
+}
+
+type e2eEnv struct {
+	m       *fakeMaster
+	s       *gobinlog.Streamer
+	scripts []func(req dumpReq) []action
+	mu      sync.Mutex
+	lateCancel bool // cancel the caller's context after Stream returned, before Error()
+}
+
+func newE2E(tables []tableDef, serverID uint32, mapper gobinlog.MysqlTableMapper) (*e2eEnv, error) {
+	env := &e2eEnv{}
+	m, err := newFakeMaster(func(idx int, req dumpReq) []action {
+		env.mu.Lock()
+		defer env.mu.Unlock()
+		if idx < len(env.scripts) && env.scripts[idx] != nil {
+			return env.scripts[idx](req)
+		}
+		return []action{{kind: "eof"}}
+	})
+	if err != nil {
+		return nil, err
+	}
+	env.m = m
+	if mapper == nil {
+		mapper = &hMapper{tables: tables}
+	}
+	env.s, _ = gobinlog.NewStreamer(m.dsn(), serverID, mapper)
+	return env, nil
+}
+
+// run performs one Stream() call (attempt number n on this environment's streamer).
+func (env *e2eEnv) run(n int, a e2eAttempt, baseline int) (res e2eResult) {
+	gate := make(chan struct{})
+	var gateOnce sync.Once
+	openGate := func() { gateOnce.Do(func() { close(gate) }) }
+	defer openGate()
+	if a.holdAfter >= 0 {
+		// lock-step pacing: the rest is sent once the handler ran, or after a short pause when no handler call is due
+		go func() {
+			time.Sleep(40 * time.Millisecond)
+			openGate()
+		}()
+	}
+	allSent := make(chan struct{})
+	env.mu.Lock()
+	for len(env.scripts) <= n {
+		env.scripts = append(env.scripts, nil)
+	}
+	env.scripts[n] = func(req dumpReq) []action {
+		var acts []action
+		for i, e := range a.events {
+			if a.holdAfter >= 0 && i == a.holdAfter {
+				acts = append(acts, action{kind: "gate", gate: gate})
+			}
+			acts = append(acts, action{kind: "event", data: e})
+		}
+		done := make(chan struct{})
+		close(done)
+		acts = append(acts, action{kind: "gate", gate: signalThen(allSent, done)})
+		acts = append(acts, action{kind: a.terminal, code: a.errCode, msg: a.errMsg, data: []byte{1, 2, 3}})
+		return acts
+	}
+	env.mu.Unlock()
+
+	ctx, cancel := context.WithCancel(context.Background())
+	defer cancel()
+	var inHandler int32
+	var returned int32
+	ncall := 0
+	handler := func(t *gobinlog.Transaction) error {
+		if atomic.AddInt32(&inHandler, 1) > 1 {
+			res.overlap = true
+		}
+		defer atomic.AddInt32(&inHandler, -1)
+		if atomic.LoadInt32(&returned) == 1 {
+			res.afterReturn = true
+		}
+		k := ncall
+		ncall++
+		ok := true
+		if k < len(a.verdicts) {
+			ok = a.verdicts[k]
+		}
+		res.calls = append(res.calls, vh.L(txVal(t), vh.B(ok)))
+		res.snapshots = append(res.snapshots, txVal(t).String())
+		res.txs = append(res.txs, t)
+		if a.holdAfter >= 0 {
+			openGate()
+		}
+		if a.slowHandler > 0 {
+			time.Sleep(a.slowHandler)
+		}
+		if a.scribble {
+			scribbleTx(t)
+		}
+		if a.cancelInHandler == k {
+			cancel()
+		}
+		if !ok {
+			return errors.New("handler refuses")
+		}
+		return nil
+	}
+	if a.cancelWhenIdle {
+		go func() {
+			<-allSent
+			time.Sleep(30 * time.Millisecond)
+			cancel()
+		}()
+	}
+	t0 := time.Now()
+	res.returned = within(5*time.Second, func() {
+		res.streamErr = env.s.Stream(ctx, handler)
+	})
+	res.elapsed = time.Since(t0)
+	atomic.StoreInt32(&returned, 1)
+	if !res.returned {
+		res.outcome = "blocked"
+		cancel()
+		return
+	}
+	res.outcome = streamErrClass(res.streamErr)
+	if res.streamErr != nil && strings.HasPrefix(res.outcome, "other:") {
+		res.outcome = "connect-or-dump-error"
+	}
+	res.stored = gobinlog.VerifStoredPosition(env.s)
+	// Error() must return
+	if env.lateCancel {
+		cancel()
+	}
+	var eres error
+	if within(1500*time.Millisecond, func() { eres = env.s.Error() }) {
+		res.errorRes = classifyErr(eres)
+	} else {
+		res.errorRes = "blocked"
+	}
+	res.errorResAfterCancel = res.errorRes
+	// nothing left behind
+	deadline := time.Now().Add(1500 * time.Millisecond)
+	for libraryGoroutines() > baseline && time.Now().Before(deadline) {
+		time.Sleep(20 * time.Millisecond)
+	}
+	res.leaked = libraryGoroutines() > baseline
+	if mc := env.m.conn(n); mc != nil {
+		select {
+		case <-mc.done:
+		case <-time.After(1500 * time.Millisecond):
+		}
+		env.m.mu.Lock()
+		res.closedSeen = mc.clientClosed
+		res.quitSeen = mc.quit
+		res.dumps = append([]dumpReq{}, mc.dumps...)
+		res.queries = append([]string{}, mc.queries...)
+		res.order = append([]string{}, mc.order...)
+		env.m.mu.Unlock()
+	}
+	return
+}
+
+func signalThen(sig chan struct{}, done chan struct{}) chan struct{} {
+	// a gate that is already open but records that the master reached it
+	ch := make(chan struct{})
+	go func() {
+		close(sig)
+		<-done
+		close(ch)
+	}()
+	return ch
+}
+
+func scribbleTx(t *gobinlog.Transaction) {
+	for _, e := range t.Events {
+		for _, rows := range [][]*gobinlog.RowData{e.RowValues, e.RowIdentifies} {
+			for _, rd := range rows {
+				for _, c := range rd.Columns {
+					for i := range c.Data {
+						c.Data[i] = 'X'
+					}
+				}
+			}
+		}
+	}
+}
+
+func (env *e2eEnv) close() { env.m.close() }
+
+// ---------------------------------------------------------------------------
+
+func e2eRun(c *Ctx, prop string) {
+	switch prop {
+	case "C01":
+		e2eFidelity(c)
+	case "C03":
+		e2eResume(c)
+	case "C04":
+		e2eAttempts(c)
+	}
+}
+
+// e2eFidelity: whole histories through TCP; deliveries, return values and the dump request.
+func e2eFidelity(c *Ctx) {
+	r := c.Rng
+	n := c.N(8, 150)
+	base := libraryGoroutines()
+	for k := 0; k < n; k++ {
+		cfg := baseCfgs[k%len(baseCfgs)]
+		h := genHistory(r, cfg, histOpts{units: 3 + r.Intn(5), maxCols: 1 + r.Intn(8), maxRows: 2, rotations: true, ignorables: k%2 == 0})
+		h.encode(c)
+		env, err := newE2E(h.tables, 4000000000, nil)
+		if err != nil {
+			c.R.Notes = append(c.R.Notes, "cannot listen on 127.0.0.1: "+err.Error())
+			return
+		}
+		f0, o0 := startOf(h)
+		evs, _ := h.serve(c, f0, uint32(o0))
+		env.s.SetBinlogPosition(gobinlog.Position{Filename: f0, Offset: o0})
+		res := env.run(0, e2eAttempt{events: evs, terminal: "eof", cancelInHandler: -1, holdAfter: -1}, base)
+		env.close()
+		c.R.Count(fmt.Sprintf("e2e/%s/gtid%v", cfg.Key(), k%2 == 0))
+		exp := strs(h.expectedTxVals(c, h.txs, f0, uint32(o0)))
+		got := acceptedOf(res.calls)
+		desc := fmt.Sprintf("e2e cfg=%s units=%v", cfg, h.kinds)
+		if !res.returned || res.outcome != "end" || !eqStrs(exp, got) {
+			c.R.Add(vh.Mismatch{Kind: "spec", What: "e2e fidelity: deliveries through the real connection differ from the committed transactions",
+				Case: desc, Expected: fmt.Sprintf("%d transactions, Stream nil", len(exp)), Impl: fmt.Sprintf("outcome=%s %d delivered; %s", res.outcome, len(got), firstDiff(exp, got)), InDomain: true})
+			continue
+		}
+		if res.errorRes != "nil" {
+			c.R.Add(vh.Mismatch{Kind: "spec", What: "e2e fidelity: Error() after a stream ended by the master's EOF", Case: desc, Expected: "nil", Impl: res.errorRes, InDomain: true})
+		}
+		if len(res.dumps) != 1 || res.dumps[0].File != f0 || int64(res.dumps[0].Pos) != o0 || res.dumps[0].ServerID != 4000000000 {
+			c.R.Add(vh.Mismatch{Kind: "spec", What: "e2e fidelity: dump request differs from the configured stream", Case: desc, Impl: fmt.Sprintf("%+v", res.dumps), InDomain: true})
+		}
+	}
+}
+
+// e2eResume: a new stream started at the end label of delivered transaction k asks the master for exactly that
+// position and yields exactly the remaining transactions.
+func e2eResume(c *Ctx) {
+	r := c.Rng
+	base := libraryGoroutines()
+	for k := 0; k < c.N(4, 60); k++ {
+		cfg := baseCfgs[r.Intn(len(baseCfgs))]
+		h := genHistory(r, cfg, histOpts{units: 4 + r.Intn(5), maxCols: 3, maxRows: 2, rotations: true, ignorables: true, bigOffsets: k%2 == 0})
+		h.encode(c)
+		f0, o0 := startOf(h)
+		D := strs(h.expectedTxVals(c, h.txs, f0, uint32(o0)))
+		for ti, tx := range h.txs {
+			if !c.Thorough() && r.Chance(1, 2) {
+				continue
+			}
+			env, err := newE2E(h.tables, 9, nil)
+			if err != nil {
+				return
+			}
+			env.s.SetBinlogPosition(gobinlog.Position{Filename: tx.nextFile, Offset: int64(tx.next)})
+			var got dumpReq
+			env.mu.Lock()
+			env.scripts = append(env.scripts, nil)
+			env.mu.Unlock()
+			evs, _ := h.serve(c, tx.nextFile, tx.next)
+			res := env.run(0, e2eAttempt{events: evs, terminal: "eof", cancelInHandler: -1, holdAfter: -1}, base)
+			env.close()
+			if len(res.dumps) == 1 {
+				got = res.dumps[0]
+			}
+			c.R.Count(fmt.Sprintf("e2e-resume/big%v/%s", k%2 == 0, h.kinds[tx.unit]))
+			desc := fmt.Sprintf("e2e resume after tx %d at %s:%d cfg=%s units=%v", ti, tx.nextFile, tx.next, cfg, h.kinds)
+			if got.File != tx.nextFile || got.Pos != tx.next {
+				c.R.Add(vh.Mismatch{Kind: "spec", What: "e2e resume: the dump request does not ask for the end label", Case: desc, Impl: fmt.Sprintf("%+v", res.dumps), InDomain: true})
+			}
+			if rest := acceptedOf(res.calls); !eqStrs(D[ti+1:], rest) || res.outcome != "end" {
+				c.R.Add(vh.Mismatch{Kind: "spec", What: "e2e resume: a stream started at a delivered end label does not yield exactly the remaining transactions", Case: desc,
+					Expected: fmt.Sprint(len(D) - ti - 1), Impl: res.outcome + " " + firstDiff(D[ti+1:], rest), InDomain: true})
+			}
+		}
+	}
+}
+
+// e2eAttempts: sequences of failing attempts (network faults, cancel, handler error) followed by a clean one on ONE
+// streamer; every transaction accepted exactly once, each dump request at the stored position of the previous attempt.
+func e2eAttempts(c *Ctx) {
+	r := c.Rng
+	base := libraryGoroutines()
+	faults := []string{"close", "reset", "short", "outofseq", "err", "eof", "cancel-idle", "cancel-handler", "handler-err"}
+	for k := 0; k < c.N(6, 120); k++ {
+		cfg := baseCfgs[r.Intn(len(baseCfgs))]
+		h := genHistory(r, cfg, histOpts{units: 4 + r.Intn(5), maxCols: 3, maxRows: 2, rotations: true, ignorables: k%2 == 0})
+		h.encode(c)
+		if len(h.txs) < 2 {
+			continue
+		}
+		f0, o0 := startOf(h)
+		D := strs(h.expectedTxVals(c, h.txs, f0, uint32(o0)))
+		for _, fk := range faults {
+			for _, lockstep := range []bool{false, true} {
+				if !c.Thorough() && r.Chance(1, 2) {
+					continue
+				}
+				env, err := newE2E(h.tables, 11, nil)
+				if err != nil {
+					return
+				}
+				env.s.SetBinlogPosition(gobinlog.Position{Filename: f0, Offset: o0})
+				wantFile, wantOff := f0, o0
+				nfail := 1 + r.Intn(3)
+				var accepted []string
+				desc := fmt.Sprintf("e2e cfg=%s units=%v fault=%s lockstep=%v failed_attempts=%d", cfg, h.kinds, fk, lockstep, nfail)
+				bad := false
+				for att := 0; att <= nfail && !bad; att++ {
+					evs, _ := h.serve(c, wantFile, uint32(wantOff))
+					a := e2eAttempt{events: evs, terminal: "eof", cancelInHandler: -1, holdAfter: -1}
+					if att < nfail && len(evs) > 3 {
+						cut := 2 + r.Intn(len(evs)-2)
+						switch fk {
+						case "close", "reset", "short", "outofseq", "err", "eof":
+							a.events, a.terminal = evs[:cut], fk
+							a.errCode, a.errMsg = 1236, "binlog truncated"
+						case "cancel-idle":
+							a.events, a.terminal, a.cancelWhenIdle = evs[:cut], "hang", true
+						case "cancel-handler":
+							a.cancelInHandler, a.terminal = 0, "hang"
+						case "handler-err":
+							a.verdicts, a.terminal = []bool{r.Bool(), false}, "hang"
+						}
+						if lockstep && a.holdAfter < 0 && len(a.events) > 2 {
+							a.holdAfter = 2 + r.Intn(len(a.events)-2)
+						}
+					}
+					res := env.run(att, a, base)
+					if !res.returned {
+						c.R.Add(vh.Mismatch{Kind: "spec", What: "e2e attempts: Stream did not return", Case: desc, InDomain: true})
+						bad = true
+						break
+					}
+					if len(res.dumps) != 1 || res.dumps[0].File != wantFile || int64(res.dumps[0].Pos) != wantOff {
+						c.R.Add(vh.Mismatch{Kind: "spec", What: "e2e attempts: the dump request is not at the stored resume position of the previous attempt", Case: desc + fmt.Sprintf(" attempt=%d", att),
+							Expected: fmt.Sprintf("%s:%d", wantFile, wantOff), Impl: fmt.Sprintf("%+v", res.dumps), InDomain: true})
+						bad = true
+					}
+					accepted = append(accepted, acceptedOf(res.calls)...)
+					wantFile, wantOff = res.stored.Filename, res.stored.Offset
+				}
+				env.close()
+				c.R.Count(fmt.Sprintf("e2e/%s/lockstep%v/attempts%d", fk, lockstep, nfail+1))
+				if !bad && !eqStrs(D, accepted) {
+					c.R.Add(vh.Mismatch{Kind: "spec", What: "e2e exactly-once: over failed attempts followed by a clean one a transaction was lost, repeated or reordered", Case: desc,
+						Expected: fmt.Sprint(len(D)), Impl: fmt.Sprintf("%d accepted; %s", len(accepted), firstDiff(D, accepted)), InDomain: true})
+				}
+			}
+		}
+	}
 }
